@@ -179,8 +179,8 @@ func (f *file) asyncReadNow(b []byte, readSoFar int, readAll bool, cb AsyncCallb
 	}
 
 	// handles (readAll == false) and (readAll == true && readSoFar != len(b)).
-	if err == sonicerrors.ErrWouldBlock {
-		// If readAll == true then read some without errors.
+	if err == nil || err == sonicerrors.ErrWouldBlock {
+		// If readAll == true then read some without errors (err == nil: a short read, the rest has not arrived yet).
 		// We schedule an asynchronous read.
 		f.scheduleRead(readSoFar, cb)
 	} else {
@@ -238,7 +238,8 @@ func (f *file) asyncWriteNow(b []byte, wroteSoFar int, writeAll bool, cb AsyncCa
 	}
 
 	// Handles (writeAll == false) and (writeAll == true && wroteSoFar != len(b)).
-	if err == sonicerrors.ErrWouldBlock {
+	if err == nil || err == sonicerrors.ErrWouldBlock {
+		// err == nil: a short write, the kernel took only part of the buffer. Continue when it is writable again.
 		f.scheduleWrite(wroteSoFar, cb)
 	} else {
 		cb(err, wroteSoFar)
